@@ -450,6 +450,7 @@ func (r *registry) gql(t *Ty) graphql.Type {
 type world struct {
 	schema     *graphql.Schema
 	fDef, gDef *graphql.FieldDefinition
+	uDef *graphql.FieldDefinition
 	extra      []graphql.NamedType
 	hookCalls  int                  // invocations of InputCoercion hooks
 	fArgs      []hx.Sexp            // what f's resolver observed, per invocation
@@ -501,6 +502,7 @@ func newWorld(p *pcase, clone bool) (*world, error) {
 			u.Arguments["p_"+v.Name] = &graphql.InputValueDefinition{Type: r.gql(v.Ty)}
 		}
 		queryFields["u"] = u
+		w.uDef = u
 	}
 	if p.site == "field" {
 		f.Arguments = argMap()
